@@ -59,6 +59,10 @@ type Runner struct {
 	Guard  Guard
 	// OnExchange, when set, is called for every recorded RPC of a peer.
 	OnExchange func(r *Runner, p *Peer, ex *world.Exchange)
+	// TolerateUndoError: an Undo/Redo that returns an error is counted, not
+	// reported (C15 is about convergence of what undo/redo produce; "never
+	// fails" is C14's clause and only without concurrent remote changes).
+	TolerateUndoError bool
 	// StepGuard rewrites schedule steps that would trigger a listed known
 	// finding (see exclusions.go); it returns the finding id.
 	StepGuard func(s Step) (Step, string)
@@ -275,10 +279,18 @@ func (r *Runner) Step(s Step) *Failure {
 		}
 		desc, err := ApplyEdit(p.D, s)
 		r.log("c%d: %s", p.Idx, desc)
+		if err != nil && r.TolerateUndoError && (s.Op == "undo" || s.Op == "redo") && !strings.HasPrefix(err.Error(), "PANIC") {
+			r.log("c%d: %s returned an error (tolerated): %v", p.Idx, s.Op, err)
+			r.Ev["undo_redo_error"]++
+			return nil
+		}
 		if err != nil {
 			return failf("EDITFAIL", "c%d %s: %v", p.Idx, desc, err)
 		}
 		r.Ev["edit"]++
+		if desc == "undo" || desc == "redo" {
+			r.Ev["undo_redo_executed"]++
+		}
 		if s.Op == "pset" || s.Op == "pclear" {
 			r.Ev["presence_write"]++
 		}
@@ -326,6 +338,19 @@ func (r *Runner) Step(s Step) *Failure {
 		}
 		r.log("c%d: %s with a fault at storage event %d", p.Idx, s.Op[5:], ev)
 		return r.faultySync(p, s.Op == "faultpushonly", ev, false, s.B == 1)
+	case s.Op == "round":
+		// every attached client syncs once, in order, starting with Who
+		r.log("-- round: every client syncs once")
+		n := len(r.Peers)
+		for i := 0; i < n; i++ {
+			q := r.Peers[(s.Who+i)%n]
+			if q.Attached {
+				if f := r.sync(q, false); f != nil {
+					return f
+				}
+			}
+		}
+		return nil
 	case s.Op == "losesync":
 		// The server handles the request completely but the response is
 		// lost; the client keeps its local changes and checkpoint and will
@@ -615,16 +640,17 @@ type Result struct {
 
 // RunOpts selects optional oracles of Run.
 type RunOpts struct {
-	ProjTag     string
-	Guard       Guard
-	Rebuild     bool // sweep BuildInternalDocForServerSeq at the end
-	Reverse     bool // reversed final round order
-	OnExchange  func(r *Runner, p *Peer, ex *world.Exchange)
-	OnEdit      func(r *Runner, p *Peer)
-	StepGuard   func(s Step) (Step, string)
-	AfterQuiesc func(r *Runner) *Failure
-	AttachOpts  func(i int) []interface{}
-	RecordCalls bool
+	ProjTag           string
+	Guard             Guard
+	Rebuild           bool // sweep BuildInternalDocForServerSeq at the end
+	Reverse           bool // reversed final round order
+	OnExchange        func(r *Runner, p *Peer, ex *world.Exchange)
+	OnEdit            func(r *Runner, p *Peer)
+	StepGuard         func(s Step) (Step, string)
+	TolerateUndoError bool
+	AfterQuiesc       func(r *Runner) *Failure
+	AttachOpts        func(i int) []interface{}
+	RecordCalls       bool
 }
 
 // Run executes the whole program: start, steps, quiescent round, convergence
@@ -635,6 +661,7 @@ func Run(p Program, o RunOpts) (res Result) {
 	r.OnExchange = o.OnExchange
 	r.OnEdit = o.OnEdit
 	r.StepGuard = o.StepGuard
+	r.TolerateUndoError = o.TolerateUndoError
 	r.AttachOpts = o.AttachOpts
 	defer func() {
 		res.Hist = r.Hist
@@ -693,7 +720,6 @@ func Run(p Program, o RunOpts) (res Result) {
 	}
 	return
 }
-
 
 // AddPeer attaches a new client (exported for property-specific flows).
 func (r *Runner) AddPeer(late bool) *Failure { return r.addPeer(late) }
